@@ -6,10 +6,12 @@ import (
 	"fmt"
 	"os"
 	"path/filepath"
+	"strings"
 	"sync/atomic"
 	"time"
 
 	"github.com/akrennmair/updog"
+	"github.com/akrennmair/updog/verifharness/mon"
 	"github.com/akrennmair/updog/verifharness/oracle"
 	"go.etcd.io/bbolt"
 )
@@ -40,7 +42,30 @@ func rowArg(scratch map[string]string, rows []oracle.Row, i int) map[string]stri
 	return scratch
 }
 
+// Build writes the rows through the named writer. Bounded progress: a writer call that does not return is judged every
+// two minutes by the goroutine dump; once the dump shows goroutines parked inside updog/bbolt code and none executing
+// there, Build gives up and returns an error naming where they are parked (the stuck goroutine is left behind). A writer
+// that is merely slow is waited for.
 func Build(writer, path string, rows []oracle.Row) error {
+	done := make(chan error, 1)
+	go func() { done <- build(writer, path, rows) }()
+	for {
+		select {
+		case err := <-done:
+			return err
+		case <-time.After(2 * time.Minute):
+			dump := strings.Join(mon.Stacks("updog"), "\n\n")
+			if c := mon.ClassifyDump(dump); c != "" {
+				if len(dump) > 4000 {
+					dump = dump[:4000]
+				}
+				return fmt.Errorf("the %s writer did not return (AddRow/Flush/Close of %d rows): %s\n%s", writer, len(rows), c, dump)
+			}
+		}
+	}
+}
+
+func build(writer, path string, rows []oracle.Row) error {
 	scratch := map[string]string{}
 	switch writer {
 	case WriterMemFile, WriterMemBolt:
